@@ -582,6 +582,30 @@ func emuRun[T emulated.FieldParams](b *EmuBeh, pname string, native ecc.ID, full
 						bad("a result off by one is accepted by the compiled circuit: %s", desc)
 					}
 				}
+				// the wrap attack on the deferred multiplication check (single multiplication of two witnesses)
+				if ok && len(b.Prog) == 1 && (b.Prog[0].Op == "Mul" || b.Prog[0].Op == "Sqr") && vi%5 == 0 && sel == sels[0] {
+					wit := true
+					for _, r := range b.Prog[0].A {
+						if r.K != "a" && r.K != "b" {
+							wit = false
+						}
+					}
+					var mh solver.Hint
+					for _, h := range emulated.GetHints() {
+						if strings.HasSuffix(solver.GetHintName(h), "emulated.mulHint") {
+							mh = h
+						}
+					}
+					if wit && mh != nil {
+						used := false
+						wrong := []*big.Int{new(big.Int).Mod(new(big.Int).Add(exp[0], one), q)}
+						e := prove(mkAssign(v.a, v.b, sel, wrong, nat), solver.OverrideHint(solver.GetHintID(mh), emuWrapHint(mh, &used)))
+						res.Tampered++
+						if used && e == nil {
+							bad("dishonest multiplication hint (remainder+1, quotient and carries solved modulo the native field) is accepted: %s", desc)
+						}
+					}
+				}
 				doTamper := tamper && ok && !(hasMod && pow2(v.b))
 				if toy {
 					doTamper = doTamper && vi%12 == 7
@@ -636,6 +660,101 @@ func emuRun[T emulated.FieldParams](b *EmuBeh, pname string, native ecc.ID, full
 		}
 	}
 	return res
+}
+
+// emuWrapHint is a dishonest multiplication hint: it returns the remainder plus one, the quotient solved modulo the
+// NATIVE field and carries computed in the native field, so that a(X)b(X) = r(X) + k(X)p(X) + (2^w - X)c(X) holds as
+// polynomials over the native field although a*b != r + k*p over the integers.  Calls made for equality assertions and
+// reductions (second operand on one limb) stay honest.
+func emuWrapHint(honest solver.Hint, used *bool) solver.Hint {
+	return func(field *big.Int, inputs, outputs []*big.Int) error {
+		nbBits := uint(inputs[0].Int64())
+		nbLimbs := int(inputs[1].Int64())
+		nbALen := int(inputs[2].Int64())
+		nbQuoLen := int(inputs[3].Int64())
+		nbBLen := len(inputs) - 4 - nbLimbs - nbALen
+		if nbBLen <= 1 || nbQuoLen == 0 {
+			return honest(field, inputs, outputs)
+		}
+		recompose := func(l []*big.Int) *big.Int {
+			r := new(big.Int)
+			for i := len(l) - 1; i >= 0; i-- {
+				r.Lsh(r, nbBits).Add(r, l[i])
+			}
+			return r
+		}
+		decompose := func(v *big.Int, l []*big.Int) bool {
+			x := new(big.Int).Set(v)
+			mask := new(big.Int).Sub(new(big.Int).Lsh(big.NewInt(1), nbBits), big.NewInt(1))
+			for i := range l {
+				l[i].And(x, mask)
+				x.Rsh(x, nbBits)
+			}
+			return x.Sign() == 0
+		}
+		limbMul := func(x, y []*big.Int) []*big.Int {
+			if len(x) == 0 || len(y) == 0 {
+				return nil
+			}
+			r := make([]*big.Int, len(x)+len(y)-1)
+			for i := range r {
+				r[i] = new(big.Int)
+			}
+			for i := range x {
+				for j := range y {
+					r[i+j].Add(r[i+j], new(big.Int).Mul(x[i], y[j]))
+				}
+			}
+			return r
+		}
+		ptr := 4
+		plimbs := inputs[ptr : ptr+nbLimbs]
+		ptr += nbLimbs
+		alimbs := inputs[ptr : ptr+nbALen]
+		ptr += nbALen
+		blimbs := inputs[ptr : ptr+nbBLen]
+		quo := outputs[0:nbQuoLen]
+		rem := outputs[nbQuoLen : nbQuoLen+nbLimbs]
+		carries := outputs[nbQuoLen+nbLimbs:]
+		p, a, b := recompose(plimbs), recompose(alimbs), recompose(blimbs)
+		ab := new(big.Int).Mul(a, b)
+		r := new(big.Int).Mod(ab, p)
+		r.Add(r, big.NewInt(1))
+		k := new(big.Int).Sub(ab, r)
+		k.Mod(k, field)
+		pinv := new(big.Int).ModInverse(new(big.Int).Mod(p, field), field)
+		if pinv == nil {
+			return honest(field, inputs, outputs)
+		}
+		k.Mul(k, pinv).Mod(k, field)
+		if !decompose(k, quo) || !decompose(r, rem) {
+			return honest(field, inputs, outputs) // does not fit the limbs: no attack for these parameters
+		}
+		lhs := limbMul(alimbs, blimbs)
+		rhs := limbMul(quo, plimbs)
+		for i := range rem {
+			if i < len(rhs) {
+				rhs[i].Add(rhs[i], rem[i])
+			} else {
+				rhs = append(rhs, new(big.Int).Set(rem[i]))
+			}
+		}
+		tinv := new(big.Int).Lsh(big.NewInt(1), nbBits)
+		tinv.ModInverse(tinv, field)
+		carry := new(big.Int)
+		for i := range carries {
+			if i < len(lhs) {
+				carry.Add(carry, lhs[i])
+			}
+			if i < len(rhs) {
+				carry.Sub(carry, rhs[i])
+			}
+			carry.Mul(carry, tinv).Mod(carry, field)
+			carries[i].Set(carry)
+		}
+		*used = true
+		return nil
+	}
 }
 
 // EmuReplay replays EmulatedOps.tla programs on several emulated parameter sets.
